@@ -121,6 +121,14 @@ func (in *inst) shallowScan(s ast.Stmt) (f shallow) {
 			if id, ok := n.Fun.(*ast.Ident); ok && id.Name == "panic" {
 				f.terminates = true
 			}
+			// a *rand.Rand is mutable state that is not safe for concurrent use: using it is a shared-state write
+			if sel, ok := n.Fun.(*ast.SelectorExpr); ok {
+				if sl := in.info.Selections[sel]; sl != nil && sl.Kind() == types.MethodVal {
+					if fn, ok := sl.Obj().(*types.Func); ok && fn.Pkg() != nil && (fn.Pkg().Path() == "math/rand" || fn.Pkg().Path() == "math/rand/v2") {
+						f.write = true
+					}
+				}
+			}
 		}
 		return true
 	}
@@ -242,6 +250,31 @@ func (in *inst) simLock(s ast.Stmt) bool {
 	return true
 }
 
+// simOnce rewrites the statement `x.Do(f)` on a sync.Once in place into verifsim.OnceDo(&x, f, site).
+func (in *inst) simOnce(s ast.Stmt) bool {
+	es, ok := s.(*ast.ExprStmt)
+	if !ok {
+		return false
+	}
+	c, ok := es.X.(*ast.CallExpr)
+	if !ok || len(c.Args) != 1 {
+		return false
+	}
+	m, tn, ok := in.syncMethod(c)
+	if !ok || tn != "Once" || m != "Do" {
+		return false
+	}
+	recv := c.Fun.(*ast.SelectorExpr).X
+	var arg ast.Expr = recv
+	if t := in.info.TypeOf(recv); t != nil {
+		if _, isPtr := t.Underlying().(*types.Pointer); !isPtr {
+			arg = &ast.UnaryExpr{Op: token.AND, X: recv}
+		}
+	}
+	es.X = call("OnceDo", arg, c.Args[0], strLit(in.site(s.Pos())))
+	return true
+}
+
 func (in *inst) rewriteGo(g *ast.GoStmt) []ast.Stmt {
 	in.idN++
 	idName := fmt.Sprintf("__verifID%d", in.idN)
@@ -334,6 +367,10 @@ func (in *inst) rewriteList(list []ast.Stmt, inGo bool) []ast.Stmt {
 			in.changed = true
 		case f.unlock:
 			out = append(out, s, &ast.ExprStmt{X: call("MutexUnlocked")}, in.yield("Yield", s.Pos()))
+			in.changed = true
+		case f.onceDo && in.simOnce(core):
+			out = append(out, s)
+			in.stats["once-do"]++
 			in.changed = true
 		case f.onceDo:
 			out = append(out, in.yield("Yield", s.Pos()), &ast.ExprStmt{X: call("LockEnter")}, s, &ast.ExprStmt{X: call("LockExit")})
